@@ -419,8 +419,16 @@ def run_unify_pair(acc, index, t1, t2):
             # the unification is made but NEVER started; meanwhile ANOTHER unification binds its variables and sits at
             # its answer; abandoning the one that never started changes nothing
             others = [iter(impl.engine.unify(v, yp.atom('bound_by_another_%d' % i))) for i, v in enumerate(vs)]
-            for o in others:
-                next(o)
+            try:
+                for o in others:
+                    next(o)
+            except StopIteration:
+                # X, Y or Z is not free any more: an earlier ending of this pair left a binding behind (reported there)
+                for o in reversed(others):
+                    o.close()
+                acc.violation('unify:binding-left-behind:before-' + mode, index + (mode, 0), {'unify': [_j(t1), _j(t2)], 'mode': mode, 'k': 0},
+                              'unify(%s, %s): before the %s scenario X, Y, Z are not all unbound: %r' % (pp(t1), pp(t2), mode, impl.observe(vs)), key='%s|%s|%s|0' % (pp(t1), pp(t2), mode))
+                continue
             before = impl.observe(vs)
             if mode.endswith('close') and hasattr(g, 'close'):
                 g.close()
